@@ -481,3 +481,7 @@ for _f, _id in ((merge_once_with, "C18.DTAB-merge-with"), (merge_once, "C18.DTAB
 
 RULES = [merge_once_with, merge_once, symmetric_diff, from_diff_item, folds]
 CONFIGS_QUICK = ["dbg", "rel"]
+
+# control signature of the bookkeeping effects this property depends on (rules/ctrlsig.py)
+from .ctrlsig import make_rule as _ctrl_rule  # noqa: E402
+RULES.append(_ctrl_rule("C18"))
